@@ -285,6 +285,7 @@ br_eax_aad_inject(br_eax_context *ctx, const void *data, size_t len)
 		memcpy(ctx->buf + ptr, data, clen);
 		data = (const unsigned char *)data + clen;
 		len -= clen;
+		ctx->ptr = 16;
 	}
 
 	/*
